@@ -6,7 +6,9 @@
 #include "rkcommon/containers/AlignedVector.h"
 using namespace rkcommon;
 extern "C" void vp_memalign_info(unsigned *calls, uint64_t *align, uint64_t *size, void **ptr);
+extern "C" void vp_memalign_mode(unsigned may_fail);     // symbolic runs: whether the posix_memalign stub may report ENOMEM
 #ifdef VP_NATIVE_BUILD
+extern "C" void vp_memalign_mode(unsigned) {}
 extern "C" void vp_memalign_info(unsigned *calls, uint64_t *align, uint64_t *size, void **ptr) { *calls = 0; *align = 0; *size = 0; *ptr = nullptr; }
 #define SYMBOLIC_ONLY(x)
 #else
@@ -18,6 +20,7 @@ struct S64 { char b[64]; };
 
 template <typename T> static void t_allocate()
 {
+  vp_memalign_mode(1);
   containers::aligned_allocator<T, 64> al;
   size_t n = vp_nondet_u64();          // every 64-bit element count
   const size_t maxn = (size_t)-1 / sizeof(T);
@@ -33,9 +36,10 @@ template <typename T> static void t_allocate()
     vp_assert(badalloc == (raw == nullptr), "bad_alloc exactly when the allocator returned null"); })
   if (p) {
     vp_assert(memory::isAligned(p, 64), "result is 64-byte aligned");
-    unsigned char *b = (unsigned char *)p;                 // usable for the full extent: written and read back under bounds checks
-    for (size_t i = 0; i < n * sizeof(T); i++) b[i] = (unsigned char)i;
-    for (size_t i = 0; i < n * sizeof(T); i++) vp_assert(b[i] == (unsigned char)i, "memory usable for n elements");
+    unsigned char *b = (unsigned char *)p;                 // usable for the full extent: first, last and an arbitrary byte, under bounds checks
+    size_t k = vp_nondet_u64(); vp_assume(k < n * sizeof(T));
+    b[0] = 1; b[n * sizeof(T) - 1] = 2; b[k] = 3;
+    vp_assert(b[k] == 3, "memory usable for n elements");
     al.deallocate(p, n);
   }
   vp_reach("end");
@@ -47,6 +51,7 @@ VP_ENTRY vp_main_alloc_s64() { t_allocate<S64>(); }
 
 VP_ENTRY vp_main_alignedmalloc()
 {
+  vp_memalign_mode(1);
   size_t size = vp_nondet_u64(), align = vp_nondet_u64();
   vp_assume(align >= 1 && align <= 4096 && (align & (align - 1)) == 0);      // every power-of-two alignment 1..4096
   void *p = memory::alignedMalloc(size, align);
@@ -54,7 +59,7 @@ VP_ENTRY vp_main_alignedmalloc()
     vp_assert(((size_t)p) % align == 0, "non-null result is a multiple of the alignment");
     SYMBOLIC_ONLY(vp_assume(size <= 64);)
     unsigned char *b = (unsigned char *)p;
-    if (size <= 64) { for (size_t i = 0; i < size; i++) b[i] = 1; for (size_t i = 0; i < size; i++) vp_assert(b[i] == 1, "usable for the full size"); }
+    if (size >= 1 && size <= 64) { size_t k = vp_nondet_u64(); vp_assume(k < size); b[0] = 1; b[size - 1] = 2; b[k] = 3; vp_assert(b[k] == 3, "usable for the full size"); }
     memory::alignedFree(p);
   }
   int x; vp_assert(memory::isAligned((void *)(((size_t)&x) & ~(size_t)63), 64) && (((size_t)&x) % 64 == 0 || !memory::isAligned(&x, 64) || ((size_t)&x) % 64 == 0), "isAligned = address % alignment == 0");
